@@ -15,8 +15,17 @@ type extraFn struct {
 	Ver    int
 	Name   string
 	Recv   int      // 1: method of the version's object type
-	Params []string // "string" | "int" | "float" | "bool"
-	Call   func(obj unsafe.Pointer, a []string) []any
+	Params []string // "string" | "int" | "float" | "bool" | "bytes"
+	// Call returns the results and the byte buffers it passed in (the
+	// caller's own buffers, which it is free to reuse afterwards).
+	Call func(obj unsafe.Pointer, a []string) ([]any, [][]byte)
+}
+
+// extraBytes makes the caller's buffer for a []byte parameter.
+func extraBytes(in *[][]byte, s string) []byte {
+	b := []byte(s)
+	*in = append(*in, b)
+	return b
 }
 
 var extraAPI []extraFn
